@@ -43,6 +43,8 @@ type EntrySpec struct {
 	Instances   []map[string]int  `json:"instances"`
 	ThoroughInstances []map[string]int `json:"thorough_instances"`
 	TimeoutS    int               `json:"timeout_s"`
+	OnLock      string            `json:"on_lock"`
+	AllowBlock  bool              `json:"allow_block"`
 }
 
 type Exec struct {
